@@ -137,6 +137,31 @@ func (r *ConcRun) execOp(t *Task, co *concOp) {
 		}
 		co.readRes = rt
 		r.Stats["reader_pages"]++
+	case "nsid":
+		if c, err := h.Store.GetNamespacedIdentifier(op.S, nil); err != nil || c == "" {
+			co.err = fmt.Errorf("GetNamespacedIdentifier(%q) = %q, %v", op.S, c, err)
+		} else if back, err := h.Store.ExpandCurie(c); err != nil || back != op.S {
+			co.err = fmt.Errorf("%q -> %q -> %q (%v)", op.S, c, back, err)
+		}
+		r.Stats["roundtrips"]++
+	case "ctx":
+		var ctx *server.Context
+		switch op.N {
+		case 0:
+			ctx = h.Store.GetGlobalContext(true)
+		case 1:
+			ctx = h.Store.GetGlobalContext(false)
+		default:
+			ctx = h.Store.NamespaceManager.GetContext(nil)
+		}
+		seen := map[string]string{}
+		for p, e := range ctx.Namespaces {
+			if q, dup := seen[e]; dup {
+				co.err = fmt.Errorf("context maps expansion %q to both %s and %s", e, q, p)
+			}
+			seen[e] = p
+		}
+		r.Stats["context_reads"]++
 	case "compact":
 		r.compactStart = r.commits
 		r.compactStarted = true
@@ -435,6 +460,38 @@ func RunConcScenario(sc *Scenario) (vd *Verdict) {
 	if len(s.Races) > 0 {
 		r.Stats["lockset_races"] = int64(len(s.Races))
 	}
+	if sc.Property == "C13" {
+		for _, cos := range r.ops {
+			for _, co := range cos {
+				if (co.op.K == "nsid" || co.op.K == "ctx") && co.err != nil {
+					fail(viol("C13", "concurrent-consistency", "inconsistent-answer:"+co.op.K, "task %d op %d: %v", co.task, co.idx, co.err))
+					return
+				}
+			}
+		}
+		for _, rc := range s.Races {
+			if strings.HasPrefix(rc, "ns.maps") {
+				fail(viol("C13", "lockset-race", "ns.maps:"+raceSites(rc), "namespace maps are read and written by concurrent requests without a common lock: %s", rc))
+				return
+			}
+		}
+		mem := NewNSMem()
+		var cur []string
+		pool, _ := collectNames(sc)
+		for _, u := range pool {
+			if c, err := h.Store.GetNamespacedIdentifier(markerToFull(u), nil); err == nil && c != "" {
+				cur = append(cur, c)
+			}
+		}
+		if v := ObserveNS(h, mem, cur, ":concurrent"); v != nil {
+			fail(v)
+			return
+		}
+		if _, v := RawConsistency(h, "C13"); v != nil {
+			fail(v)
+			return
+		}
+	}
 	return
 }
 
@@ -540,4 +597,15 @@ func (r *ConcRun) checkRead(m *Model, co *concOp) *Violation {
 		}
 	}
 	return nil
+}
+
+// raceSites extracts the two call sites of a lockset race description for signatures.
+func raceSites(r string) string {
+	i := strings.Index(r, ": ")
+	if i < 0 {
+		return r
+	}
+	parts := strings.Split(r[i+2:], " / ")
+	sort.Strings(parts)
+	return strings.Join(parts, "/")
 }
